@@ -173,6 +173,45 @@ func init() {
 						}
 						o.Case("prop:write-after-edit", res, n, optsArg(opts), e.name, fmt.Sprint(l.v), l.nl)
 					}
+					// one Writer used for several messages: a refusal is about that message only - the valid original
+					// written next through the same Writer succeeds with the bytes a fresh Writer produces, and so
+					// does a second refusal deliver nothing
+					var orig wire.File
+					if opts == nil {
+						orig, err = wire.NewReader(strings.NewReader(texts[n])).Read()
+					} else {
+						orig, err = wire.NewReader(strings.NewReader(texts[n])).ReadWithOpts(opts)
+					}
+					if err != nil {
+						continue
+					}
+					for _, l := range layouts6 {
+						var fresh, shared bytes.Buffer
+						res := "same"
+						pn, _ := protect(func() {
+							_ = wire.NewWriter(&fresh, wire.VariableLengthFields(l.v), wire.NewlineCharacter(l.nl)).Write(&orig)
+							w := wire.NewWriter(&shared, wire.VariableLengthFields(l.v), wire.NewlineCharacter(l.nl))
+							e1 := w.Write(&f)
+							n1 := shared.Len()
+							e2 := w.Write(&orig)
+							n2 := shared.Len()
+							e3 := w.Write(&f)
+							switch {
+							case e1 == nil || n1 > 0:
+								res = "differ:the first (invalid) message was not refused cleanly"
+							case e2 != nil:
+								res = "differ:after a refusal the same Writer refuses a valid message: " + short(e2.Error())
+							case shared.String()[:n2] != fresh.String():
+								res = "differ:after a refusal the same Writer writes other bytes for a valid message than a fresh Writer"
+							case e3 == nil || shared.Len() != n2:
+								res = "differ:a later invalid message was not refused cleanly by the same Writer"
+							}
+						})
+						if pn {
+							res = "differ:panic"
+						}
+						o.Case("prop:write-after-edit", res, n, optsArg(opts), e.name, fmt.Sprint(l.v), l.nl, "reused-writer")
+					}
 				}
 			}
 		}
